@@ -191,6 +191,28 @@ pub fn scenario(family: &str, seed: u64) -> Scenario {
                 net.schedule.push((dir.to_string(), rng.random_range(0..60) + i, "replay_late".to_string()));
             }
         }
+        // handshake under loss / duplication / one-way blackholes, unroutable datagrams, early close
+        "handshake" => {
+            for _ in 0..rng.random_range(0..3) {
+                let dir = if rng.random_bool(0.5) { "c2s" } else { "s2c" };
+                let act = pick(rng, &["drop", "drop", "dup", "hold"]);
+                net.schedule.push((dir.to_string(), rng.random_range(0..6), act.to_string()));
+            }
+            if rng.random_bool(0.4) {
+                // the client's packets vanish after its first flight: the server keeps retransmitting against its budget
+                let from = pick(rng, &[1_000u64, 30_000, 120_000]);
+                net.blackhole.push(("c2s".into(), from, from + pick(rng, &[2_000_000u64, 6_000_000])));
+            }
+            net.inject = pick(rng, &[0u32, 10, 30]);
+            net.inject_from_us = 0;
+            net.inject_to_us = 2_000_000;
+            sc.streams = streams(rng, 1, 3_000);
+            if rng.random_bool(0.3) {
+                // the client gives up very early (close while Initial/Handshake keys still exist)
+                sc.close_at_us = pick(rng, &[1_000u64, 30_000, 70_000, 150_000]);
+            }
+            sc.deadline_us = 40_000_000;
+        }
         _ => panic!("unknown family {family}"),
     }
     // vectored / buffered writers are interesting when the send buffer is smaller than one application write
